@@ -1,7 +1,27 @@
-From Coq Require Import List NArith Arith Lia Decimal DecimalNat.
+(* C10 — executable model of core_ranking.compute_combined_features (repaired encoding, commits
+   be309a6 + 3978e4d), plus the frame vocabulary shared with C11 (Features/Construct.v).
+   No proofs here (they live in Features/InteractProofs.v): the model must still run when a proof breaks.
+
+   The real code, per selected combination (f1 .. fk) of non-label columns and per row:
+       s   = str(len(v1)) + ':' + v1 + ... + str(len(vk)) + ':' + vk      (vi = str cell of column fi; len = code points)
+       val = xxhash.xxh64(s.encode('utf-8')).hexdigest()
+       name = ' AND '.join((f1 .. fk))          (' AND_REL ' for the 3mr relation features)
+   [enc] below is s, character for character; the hash is the Section variable [h]. *)
+From Coq Require Import List NArith ZArith Arith Bool Decimal DecimalNat.
 Import ListNotations.
 
+(* strings are lists of Unicode code points (Python ord) *)
 Definition str := list N.
+
+Fixpoint streqb (a b : str) : bool :=
+  match a, b with
+  | [], [] => true
+  | x :: a', y :: b' => N.eqb x y && streqb a' b'
+  | _, _ => false
+  end.
+Definition memb (x : str) (l : list str) : bool := existsb (streqb x) l.
+
+(* ---- decimal printing of a length: Python str(int) for int >= 0 ---- *)
 Fixpoint codes_of_uint (d : uint) : str :=
   match d with
   | Nil => []
@@ -14,59 +34,150 @@ Definition dec (n : nat) : str := codes_of_uint (Nat.to_uint n).
 Definition COLON : N := 58%N.
 Definition is_digit (c : N) : Prop := (48 <= c <= 57)%N.
 
-Lemma codes_digits d : Forall is_digit (codes_of_uint d).
-Proof. induction d; cbn; constructor; try assumption; unfold is_digit; lia. Qed.
-
-Lemma codes_inj d : forall d', codes_of_uint d = codes_of_uint d' -> d = d'.
-Proof.
-  induction d; destruct d'; cbn; intros H; try discriminate; try reflexivity;
-    inversion H; f_equal; auto.
-Qed.
-
-Lemma dec_inj n m : dec n = dec m -> n = m.
-Proof.
-  unfold dec. intros H. apply codes_inj in H.
-  rewrite <- (Unsigned.of_to n), <- (Unsigned.of_to m), H. reflexivity.
-Qed.
-
-Lemma split_colon d1 : forall d2 r1 r2, Forall is_digit d1 -> Forall is_digit d2 ->
-  d1 ++ COLON :: r1 = d2 ++ COLON :: r2 -> d1 = d2 /\ r1 = r2.
-Proof.
-  induction d1 as [|a d1 IH]; intros d2 r1 r2 H1 H2 E.
-  - destruct d2 as [|b d2]; cbn in E.
-    + inversion E. auto.
-    + inversion E; subst. inversion H2 as [|? ? Hb _]; subst. unfold is_digit, COLON in Hb. lia.
-  - destruct d2 as [|b d2]; cbn in E.
-    + inversion E; subst. inversion H1 as [|? ? Ha _]; subst. unfold is_digit, COLON in Ha. lia.
-    + inversion E; subst. inversion H1; inversion H2; subst.
-      destruct (IH d2 r1 r2) as [-> ->]; auto.
-Qed.
-
+(* ---- the encoding of one row's value tuple ---- *)
 Fixpoint enc (t : list str) : str :=
   match t with
   | [] => []
   | v :: t' => dec (length v) ++ COLON :: v ++ enc t'
   end.
 
-Lemma app_eq_len {A} (a : list A) : forall b x y, length a = length b -> a ++ x = b ++ y -> a = b /\ x = y.
-Proof.
-  induction a as [|h a IH]; intros [|k b] x y Hl E; cbn in *; try discriminate; auto.
-  inversion E; subst. destruct (IH b x y) as [-> ->]; auto.
-Qed.
-
-Theorem enc_inj t : forall t', enc t = enc t' -> t = t'.
-Proof.
-  induction t as [|v t IH]; intros [|v' t'] E; cbn [enc] in E; try reflexivity.
-  - destruct (dec (length v')); discriminate.
-  - destruct (dec (length v)); discriminate.
-  - apply split_colon in E; try apply codes_digits. destruct E as [Ed Er].
-    apply dec_inj in Ed. apply app_eq_len in Er; [|exact Ed]. destruct Er as [-> Et].
-    f_equal. apply IH. exact Et.
-Qed.
-Print Assumptions enc_inj.
-
-(* the old encoding is not injective *)
+(* the encoding before fix 3978e4d: plain concatenation *)
 Definition enc_old (t : list str) : str := concat t.
-Example enc_old_refuted : exists t t', t <> t' /\ enc_old t = enc_old t'.
-Proof. exists [[49%N]; [49%N; 49%N]], [[49%N; 49%N]; [49%N]]. split; [discriminate|reflexivity]. Qed.
-Eval vm_compute in enc [[49%N]; []; [49%N; 58%N; 49%N; 48%N; 48%N; 48%N; 48%N; 48%N; 48%N; 48%N; 48%N; 48%N]].
+
+(* ---- names ---- *)
+Definition SEP_AND : str := [32; 65; 78; 68; 32]%N.                          (* " AND " *)
+Definition SEP_AND_REL : str := [32; 65; 78; 68; 95; 82; 69; 76; 32]%N.      (* " AND_REL " *)
+Fixpoint join (sep : str) (l : list str) : str :=
+  match l with
+  | [] => []
+  | x :: r => match r with [] => x | _ => x ++ sep ++ join sep r end
+  end.
+
+(* ---- frames: named columns of string cells, in column order; a pipeline frame has a RangeIndex,
+        so a row is a position ---- *)
+Definition cell := str.
+Definition column := (str * list cell)%type.
+Definition frame := list column.
+Definition names (df : frame) : list str := map fst df.
+Definition nrows (df : frame) : nat := match df with [] => 0 | c :: _ => length (snd c) end.
+Definition wf (df : frame) : Prop := Forall (fun c : column => length (snd c) = nrows df) df.
+Fixpoint getcol (df : frame) (nm : str) : list cell :=
+  match df with
+  | [] => []
+  | (k, v) :: r => if streqb nm k then v else getcol r nm
+  end.
+Definition has_col (df : frame) (nm : str) : bool := memb nm (names df).
+
+(* row i of a list of columns *)
+Definition rows_of (cols : list (list cell)) (n : nat) : list (list cell) :=
+  map (fun i => map (fun c => nth i c []) cols) (seq 0 n).
+(* the explicit value tuples of a combination, one per row *)
+Definition tuples (df : frame) (comb : list str) : list (list cell) :=
+  rows_of (map (getcol df) comb) (nrows df).
+
+(* ---- a Python dict used as  name -> column  (insertion order kept, re-assignment keeps the position) ---- *)
+Fixpoint dict_set {V} (d : list (str * V)) (k : str) (v : V) : list (str * V) :=
+  match d with
+  | [] => [(k, v)]
+  | (k', v') :: r => if streqb k k' then (k', v) :: r else (k', v') :: dict_set r k v
+  end.
+Definition dict_of {V} (l : list (str * V)) : list (str * V) :=
+  fold_left (fun d kv => dict_set d (fst kv) (snd kv)) l [].
+
+(* ---- itertools.combinations(l, k), in its order ---- *)
+Fixpoint combinations {A} (l : list A) (k : nat) : list (list A) :=
+  match k, l with
+  | 0, _ => [[]]
+  | S _, [] => []
+  | S k', x :: r => map (cons x) (combinations r k') ++ combinations r k
+  end.
+
+(* len(L[:cap]) *)
+Definition cap_len (len : nat) (cap : Z) : nat :=
+  if (cap <? 0)%Z then Z.to_nat (Z.max 0 (Z.of_nat len + cap)) else Nat.min len (Z.to_nat cap).
+
+(* the candidate space of compute_combined_features: combinations of the non-label columns;
+   note the guard reads args.interaction_order even for the 3mr relation features (order 2) *)
+Definition feature_columns (df : frame) (label : str) : list str :=
+  filter (fun c => negb (streqb c label)) (names df).
+Definition candidates (df : frame) (label : str) (io : nat) (is3mr : bool) : list (list str) :=
+  if Nat.ltb 1 io then combinations (feature_columns df label) (if is3mr then 2 else io) else [].
+(* prior_combinations_sample on a fresh counter: stable sort of all-zero counts, then the slice *)
+Definition fresh_selection (cands : list (list str)) (cap : Z) : list (list str) :=
+  firstn (cap_len (length cands) cap) cands.
+
+Section Hash.
+  Variable h : str -> cell.        (* xxh64(utf8(.)).hexdigest() *)
+
+  Definition feature_values (df : frame) (comb : list str) : list cell :=
+    map (fun r => h (enc r)) (tuples df comb).
+  Definition combine_feature (sep : str) (df : frame) (comb : list str) : column :=
+    (join sep comb, feature_values df comb).
+  (* sel = the combinations the sampler returned (any list: the theorems do not depend on the sampler) *)
+  Definition combined (sep : str) (df : frame) (sel : list (list str)) : frame :=
+    df ++ dict_of (map (combine_feature sep df) sel).
+
+  (* what the old code computed *)
+  Definition feature_values_old (df : frame) (comb : list str) : list cell :=
+    map (fun r => h (enc_old r)) (tuples df comb).
+End Hash.
+
+(* ---- partitions of the rows ---- *)
+Definition same_part {A B} (xs : list A) (ys : list B) : Prop :=
+  length xs = length ys /\
+  forall i j a a' b b', nth_error xs i = Some a -> nth_error xs j = Some a' ->
+                        nth_error ys i = Some b -> nth_error ys j = Some b' -> (a = a' <-> b = b').
+
+Fixpoint pair_rowb {A B} (ea : A -> A -> bool) (eb : B -> B -> bool) (a : A) (b : B) (xs : list A) (ys : list B) : bool :=
+  match xs, ys with
+  | [], [] => true
+  | a' :: xs', b' :: ys' => Bool.eqb (ea a a') (eb b b') && pair_rowb ea eb a b xs' ys'
+  | _, _ => false
+  end.
+Fixpoint same_partb {A B} (ea : A -> A -> bool) (eb : B -> B -> bool) (xs : list A) (ys : list B) : bool :=
+  match xs, ys with
+  | [], [] => true
+  | a :: xs', b :: ys' => pair_rowb ea eb a b xs' ys' && same_partb ea eb xs' ys'
+  | _, _ => false
+  end.
+
+(* a scorer of a coded feature column against a coded target that only sees the partition *)
+Definition partition_invariant {S} (score : list N -> list N -> S) : Prop :=
+  forall xs ys T, same_part xs ys -> score xs T = score ys T.
+Definition inj_on {A B} (f : A -> B) (l : list A) : Prop :=
+  forall x y, In x l -> In y l -> f x = f y -> x = y.
+
+(* ---- the checker run on what the implementation returned ----
+   obs_prefix: the first (ncols df) columns of the returned frame;
+   obs_new: the appended columns, hash cells relabelled by the harness to ids (equal id <-> equal cell). *)
+Fixpoint list_eqb {A} (e : A -> A -> bool) (a b : list A) : bool :=
+  match a, b with
+  | [], [] => true
+  | x :: a', y :: b' => e x y && list_eqb e a' b'
+  | _, _ => false
+  end.
+Definition column_eqb (a b : column) : bool := streqb (fst a) (fst b) && list_eqb streqb (snd a) (snd b).
+Definition frame_eqb (a b : frame) : bool := list_eqb column_eqb a b.
+Fixpoint nodupb (l : list str) : bool :=
+  match l with [] => true | x :: r => negb (memb x r) && nodupb r end.
+
+Definition C10_colcheck (sep : str) (df : frame) (cands : list (list str)) (c : str * list N) : bool :=
+  match find (fun comb => streqb (join sep comb) (fst c)) cands with
+  | None => false
+  | Some comb => same_partb N.eqb (list_eqb streqb) (snd c) (tuples df comb)
+  end.
+Definition C10_name_known (sep : str) (cands : list (list str)) (c : str * list N) : bool :=
+  existsb (fun comb => streqb (join sep comb) (fst c)) cands.
+
+Record C10_verdict := { v_prefix : bool; v_count : bool; v_distinct : bool; v_names : list bool; v_parts : list bool }.
+Definition C10_verdicts (sep : str) (df : frame) (label : str) (io : nat) (is3mr : bool) (cap : Z)
+           (obs_prefix : frame) (obs_new : list (str * list N)) : C10_verdict :=
+  let cands := candidates df label io is3mr in
+  {| v_prefix := frame_eqb obs_prefix df;
+     v_count := Nat.eqb (length obs_new) (cap_len (length cands) cap);
+     v_distinct := nodupb (map fst obs_new);
+     v_names := map (C10_name_known sep cands) obs_new;
+     v_parts := map (C10_colcheck sep df cands) obs_new |}.
+Definition C10_check sep df label io is3mr cap obs_prefix obs_new : bool :=
+  let v := C10_verdicts sep df label io is3mr cap obs_prefix obs_new in
+  v_prefix v && v_count v && v_distinct v && forallb (fun b => b) (v_parts v).
